@@ -950,7 +950,8 @@ int vorbis_synthesis_pcmout(vorbis_dsp_state *v,float ***pcm){
 }
 
 int vorbis_synthesis_read(vorbis_dsp_state *v,int n){
-  if(n && v->pcm_returned+n>v->pcm_current)return(OV_EINVAL);
+  if(n && (v->pcm_returned<0 || v->pcm_returned+n>v->pcm_current))
+    return(OV_EINVAL);
   v->pcm_returned+=n;
   return(0);
 }
